@@ -262,6 +262,9 @@ def run(ck):
     def counter_rules(fn, counters, incomplete, done_pred, lam_of=None, new_region_edges=()):
         """counters: field names; incomplete(ev)/done_pred(ev): classify returns."""
         bodies = [fn] + (prog.lambdas_in(fn) if lam_of else [])
+        if new_region_edges:
+            # private helpers of the same class the routine was split into
+            bodies += [g for g in lib.region(prog, fn, within=lambda g: g.cls == fn.cls and g.cls) if g.id != fn.id and g not in bodies]
         for body in bodies:
             for cname in counters:
                 adv = [e for e in body.events("assign") if (e["lhs"].get("f") or "").endswith("::" + cname) and e.get("op") in ("+=",)]
@@ -289,7 +292,7 @@ def run(ck):
                           "returns 'need more data' at line %s after appending to the body without advancing %s: the same bytes are expected again" % (bad[0].get("l"), cname))
                 # (ii) clear only where nothing more is appended / no Again follows
                 for c in clr:
-                    if any(cfg.edge_dominates(body, bid, k, c) for (bid, k) in new_region_edges):
+                    if new_region_edges and lib.guard_dominates(prog, c, lambda g: new_region_edges if g.id == fn.id else []):
                         ck.ob("C01-R3", "%s/%s-cleared-at-new-chunk" % (fn.base.replace(PR, ""), cname), True, c.loc, body, "initialised when a new chunk starts")
                         continue
                     later = cfg.events_after(body, c, stop=lambda e: e["k"] == "return")
@@ -307,23 +310,29 @@ def run(ck):
         return again(ev)
     counter_rules(pcl, ["bytesRead"], inc_cl, None, lam_of=True)
     cp = lib.single(prog, PR + "BodyStep::Chunk::parse")
-    newchunk = [(b.id, 0) for b in cp.blocks.values() if b.term and b.term.get("k") == "if" and b.term.get("cmp") == "==" and b.term.get("rconst") == -1
-                and ((b.term.get("lhs") or {}).get("f") or "").endswith("Chunk::size")]
+    newchunk = [(b.id, k) for b in cp.blocks.values() if b.term and len(b.succs) == 2 for k in (0, 1) if b.succs[k] is not None and
+                (lambda r: r is not None and ((r[0].get("f") or "").endswith("Chunk::size") and r[1] == "==" and b.term.get("rconst") == -1))(lib.rel_on_edge(b.term, k))]
     ck.require(newchunk, "`size == -1` test not found in Chunk::parse")
 
     def inc_chunk(ev, body):
+        if body.id != cp.id and not body.is_lambda:
+            return ev["k"] == "return" and ev.get("const") is False     # bool helper: false = not fully buffered yet
         return ev["k"] == "return" and ev.get("const") == "e:" + PR + "BodyStep::Chunk::Incomplete"
     counter_rules(cp, ["alreadyAppendedChunkBytes"], inc_chunk, None, new_region_edges=newchunk)
-    # chunk-size line is revert-guarded: inside the new-chunk region a Revert dominates the consuming calls and is ignored before size is set
-    arm_events = cfg.events_from_block(cp, cp.blocks[newchunk[0][0]].succs[0])
-    rv = [e for e in arm_events if e["k"] == "decl" and strip_tmpl(e.get("ctor") or "") == CUR + "Revert"]
-    sz = [e for e in cp.events("assign") if (e["lhs"].get("f") or "").endswith("Chunk::size") and cfg.edge_dominates(cp, newchunk[0][0], 0, e)]
-    ig = [e for e in arm_events if e["k"] == "call" and (e.get("callee") or "") == CUR + "Revert::ignore"]
-    d = cfg.dominators(cp)
-    ok = bool(rv) and bool(sz) and bool(ig) and cfg.ev_dominates(d, rv[0], ig[0]) and cfg.ev_dominates(d, ig[0], sz[0])
-    inc_before_ignore = [e for e in arm_events if inc_chunk(e, cp)]
-    ok = ok and all(not cfg.ev_dominates(d, ig[0], e) or not cfg.edge_dominates(cp, newchunk[0][0], 0, e) or True for e in inc_before_ignore)
-    ck.ob("C01-R3", "Chunk::parse/size-line-revert-guarded", ok, rv[0].loc if rv else cp.loc, cp, "Revert; scan; ignore(); size = sz — an incomplete size line is rolled back")
+    # chunk-size line is revert-guarded: in the routine that stores the parsed size (Chunk::parse or the helper it was split into) a Revert
+    # is declared, the consuming calls follow it, and it is ignored before size is set; that routine runs only on the new-chunk edge
+    szf = [(g, e) for g in lib.region(prog, cp, within=lambda g: g.cls == cp.cls and g.cls) for e in g.events("assign")
+           if (e["lhs"].get("f") or "").endswith("Chunk::size") and e.get("op") == "=" and e.get("const") is None]
+    ck.require(szf, "store of the parsed chunk size not found in Chunk::parse or its helpers")
+    for g, sz in szf:
+        d = cfg.dominators(g)
+        rv = [e for e in g.events("decl") if strip_tmpl(e.get("ctor") or "") == CUR + "Revert"]
+        ig = [e for e in g.events("call") if (e.get("callee") or "") == CUR + "Revert::ignore"]
+        cons = [e for e in g.events("call") if (e.get("callee") or "") == CUR + "advance"]
+        ok = bool(rv) and bool(ig) and cfg.ev_dominates(d, rv[0], ig[0]) and cfg.ev_dominates(d, ig[0], sz) and \
+            all(cfg.ev_dominates(d, rv[0], c) for c in cons if any(x is ig[0] for x in cfg.events_after(g, c))) and \
+            lib.guard_dominates(prog, sz, lambda h: newchunk if h.id == cp.id else [])
+        ck.ob("C01-R3", "Chunk::parse/size-line-revert-guarded", ok, rv[0].loc if rv else g.loc, g, "Revert; scan; ignore(); size = sz — an incomplete size line is rolled back")
     pte = lib.single(prog, PR + "BodyStep::parseTransferEncoding")
     pc = [e for e in pte.calls(lambda e: (e.get("callee") or "") == PR + "BodyStep::Chunk::parse")]
     rs = [e for e in pte.calls(lambda e: (e.get("callee") or "") == PR + "BodyStep::Chunk::reset")]
